@@ -88,14 +88,14 @@ func vBuildCluster(N int, settled bool, timeout time.Duration) {
 }
 
 type vClientReq struct {
-	r        *http.Request
-	tcp      bool
-	wantEP   string // endpoint the entry node must derive ("" = none)
-	hdr      string
-	fwd      bool
-	connHdr  string
-	hostIdx  int
-	pathEP   string
+	r       *http.Request
+	tcp     bool
+	wantEP  string // endpoint the entry node must derive ("" = none)
+	hdr     string
+	fwd     bool
+	connHdr string
+	hostIdx int
+	pathEP  string
 }
 
 // vClientRequest builds an arbitrary client request: HTTP with a symbolic
